@@ -17,8 +17,8 @@ ID = "C04"
 CASES = {"quick": 900, "thorough": 10000}
 FLOOR = {"quick": 700, "thorough": 8000}
 FLOOR_COUNTERS = {
-    "quick": {"objective_judgments": 2500, "competitors_tried": 20000, "grids_judged": 600, "pca_limit_judged": 400, "regression_limit_judged": 250, "regression_limit_with_surplus_components": 100},
-    "thorough": {"objective_judgments": 30000, "competitors_tried": 250000, "grids_judged": 7000, "pca_limit_judged": 5000, "regression_limit_judged": 3000, "regression_limit_with_surplus_components": 1200},
+    "quick": {"objective_judgments": 2500, "competitors_tried": 20000, "grids_judged": 600, "pca_limit_judged": 400, "regression_limit_judged": 250, "regression_limit_with_surplus_components": 100, "arpack_grids": 60, "randomized_grids": 60},
+    "thorough": {"objective_judgments": 30000, "competitors_tried": 250000, "grids_judged": 7000, "pca_limit_judged": 5000, "regression_limit_judged": 3000, "regression_limit_with_surplus_components": 1200, "arpack_grids": 800, "randomized_grids": 800},
 }
 RULE = (
     "case = centred X, Y (1-3 targets), k, space, a grid of 9 mixings from 0 to 1 (exact least-squares regressor) plus "
@@ -48,6 +48,7 @@ def gen(rng, tier, index):
         "ridge": pc.gen_regressor(rng, X, Y, kinds=("ridge", "default")),
         "ridge_mix": [float(v) for v in rng.uniform(0.02, 0.98, size=2)],
         "cseed": int(rng.integers(1 << 30)),
+        "solver": gens.pick(rng, ("full", "full", "full", "arpack", "randomized")),
         "Z": rng.normal(size=(4, X.shape[1])) * float(np.abs(X).max()),
     }
 
@@ -109,6 +110,18 @@ def run(case, j):
     if not pc.x_guard(X):
         raise Skip("XtX-eigenvalue-near-tol-cut")
     rng = np.random.default_rng(case["cseed"])
+    solver = case.get("solver", "full")
+    if solver == "arpack" and k >= min(n, m):
+        solver = "full"
+    skw = {"svd_solver": solver}
+    if solver != "full":
+        skw.update(random_state=case["cseed"] % 1000, iterated_power=30)
+        # truncated solvers are only exact when the retained spectrum is separated / the sketch spans the matrix
+        if solver == "randomized" and k + 10 < min(n, m + p):
+            skw["svd_solver"] = solver = "full"
+    j.tag(f"solver:{solver}")
+    if solver != "full":
+        j.note(f"{solver}_grids")
     # exact least squares: scikit-learn's LinearRegression where X has full column rank, otherwise the
     # pseudo-inverse solution passed as precomputed (LinearRegression keeps rounding-noise singular
     # directions of rank-deficient / centred wide X, which is not skmatter's doing)
@@ -127,7 +140,7 @@ def run(case, j):
     # ---- grid with the exact least-squares regressor
     lx, ly, lyh = [], [], []
     for a in GRID:
-        est = pc.fit_pcovr(j, f"grid a={a:.3f}", X, Y, lr, mixing=float(a), n_components=k, space=space, svd_solver="full")
+        est = pc.fit_pcovr(j, f"grid a={a:.3f}", X, Y, lr, mixing=float(a), n_components=k, space=space, **skw)
         T = np.asarray(est.transform(X))
         Xr = est.inverse_transform(T)
         Yp = pc.col2(est.predict(X), n)
@@ -177,7 +190,7 @@ def run(case, j):
     rg = case["ridge"]
     Yhr, _ = pc.oracle_yhat(rg, X, Y)
     for a in case["ridge_mix"]:
-        est = pc.fit_pcovr(j, f"ridge a={a:.3f}", X, Y, rg, mixing=a, n_components=k, space=space, svd_solver="full")
+        est = pc.fit_pcovr(j, f"ridge a={a:.3f}", X, Y, rg, mixing=a, n_components=k, space=space, **skw)
         _judge_objective(j, rng, a, X, Yhr, np.asarray(est.transform(X)), k, "ridge")
     j.nontrivial = True
     j.sample = {
